@@ -55,9 +55,19 @@ theorem extends_allocView (st : Heap × List (Name × Ref)) (nv : Name × AccVie
   · exact ⟨_, List.append_assoc _ _ _⟩
   · exact ⟨_, rfl⟩
 
+theorem extends_allocProp (st : Heap × List (Name × Ref)) (ke : Name × EntryV) :
+    Extends st.1 (allocProp st ke).1 := by
+  unfold allocProp
+  split
+  · exact ⟨_, rfl⟩
+  · exact Extends.refl _
+
+theorem extends_layoutProp (w : World) (cv : ClassV) : Extends w.heap (layoutProp w cv).1 :=
+  extends_foldl _ extends_allocProp cv.dict (w.heap, [])
+
 theorem extends_layout (w : World) (cv : ClassV) : Extends w.heap (layout w cv).heap := by
   show Extends w.heap (layoutAcc w cv (layoutDecl w cv)).1
-  exact (extends_foldl _ (extends_allocDecl _) cv.dict (w.heap, [])).trans
+  exact ((extends_layoutProp w cv).trans (extends_foldl _ (extends_allocDecl _) cv.dict ((layoutProp w cv).1, []))).trans
     (extends_foldl _ (extends_allocAcc _ _ _) cv.dict ((layoutDecl w cv).1, []))
 
 theorem extends_define (T : Tables) (w : World) (d : ClassDecl) : Extends w.heap (defineClass T w d).heap :=
@@ -182,7 +192,7 @@ theorem accessible_mem_roots {w : World} {o : Owner} {n : Name} {r : Ref} (h : (
     | some cr =>
       simp only [hc] at h ⊢
       simp only [List.mem_append, List.mem_map]
-      exact Or.inl (Or.inl ⟨(n, r), h, rfl⟩)
+      exact Or.inl (Or.inl (Or.inl (Or.inl ⟨(n, r), h, rfl⟩)))
   | inst i =>
     simp only [World.accessiblesOf, World.roots] at h ⊢
     cases hc : w.findInst i with
@@ -354,7 +364,8 @@ theorem preserve_instantiate (T : Tables) (w : World) (n c : Name) (cfg : List (
   have hinv := freshInv_foldl w.heap.length allocView (freshInv_allocView _)
     (instViews T (describeH w (.cls c)) cfg) (w.heap, []) ⟨Nat.le_refl _, by simp⟩
   have hfind : (instantiate T w n c cfg).findInst n =
-      some ⟨n, c, ((instViews T (describeH w (.cls c)) cfg).foldl allocView (w.heap, [])).2⟩ := by
+      some ⟨n, c, ((instViews T (describeH w (.cls c)) cfg).foldl allocView (w.heap, [])).2,
+        instMVals (describeM w (.cls c)) cfg⟩ := by
     unfold World.findInst instantiate
     exact find?_append_new _ _ _ hadm (by simp)
   have hroots : (instantiate T w n c cfg).roots (.inst n) =
@@ -468,7 +479,8 @@ theorem describe_instantiate (T : Tables) (w : World) (n c : Name) (cfg : List (
       (instViews T (describeH w (.cls c)) cfg).map (fun nv => (nv.1, some nv.2)) := by
   have hinv := viewsInv_foldl (instViews T (describeH w (.cls c)) cfg) (w.heap, []) [] ⟨rfl, by simp⟩
   have hfind : (instantiate T w n c cfg).findInst n =
-      some ⟨n, c, ((instViews T (describeH w (.cls c)) cfg).foldl allocView (w.heap, [])).2⟩ := by
+      some ⟨n, c, ((instViews T (describeH w (.cls c)) cfg).foldl allocView (w.heap, [])).2,
+        instMVals (describeM w (.cls c)) cfg⟩ := by
     unfold World.findInst instantiate
     exact find?_append_new _ _ _ hadm (by simp)
   have hacc : (instantiate T w n c cfg).accessiblesOf (.inst n) =
@@ -551,6 +563,7 @@ theorem accAt_set_dt {h : Heap} {rd : Ref} {t : DTree} (hd : h.dtAt rd = some t)
     | some o => cases o with
       | acc a => simp [hr] at hd
       | dt t0 => rfl
+      | prop p0 => rfl
   · exact accAt_congr (getElem?_set_ne' hx)
 
 theorem records_mutation (T : Tables) (w : World) (op : Op) (hop : (∃ i p pa k v, op = .setprop i p pa k v) ∨ ∃ i p m, op = .addEnum i p m) :
@@ -753,12 +766,68 @@ theorem declDt_classReach {w : World} {c n : Name} {cr : ClassRec} {x : Ref} (hc
     (hx : aget? cr.declDt n = some x) : ClassReach w x := by
   refine ⟨c, root_reach (r := x) ?_ (self_mem_reachAcc _ _)⟩
   simp only [World.roots, hc, List.mem_append, List.mem_map]
-  exact Or.inr ⟨(n, x), aget?_mem hx, rfl⟩
+  exact Or.inl (Or.inl (Or.inr ⟨(n, x), aget?_mem hx, rfl⟩))
 
 theorem accRef_root {w : World} {c n : Name} {cr : ClassRec} {x : Ref} (hc : w.findClass c = some cr)
     (hx : aget? cr.accRef n = some x) : x ∈ w.roots (.cls c) := by
   simp only [World.roots, hc, List.mem_append, List.mem_map]
+  exact Or.inl (Or.inl (Or.inl (Or.inr ⟨(n, x), aget?_mem hx, rfl⟩)))
+
+theorem propRef_root {w : World} {c n : Name} {cr : ClassRec} {x : Ref} (hc : w.findClass c = some cr)
+    (hx : aget? cr.propRef n = some x) : x ∈ w.roots (.cls c) := by
+  simp only [World.roots, hc, List.mem_append, List.mem_map]
   exact Or.inl (Or.inr ⟨(n, x), aget?_mem hx, rfl⟩)
+
+theorem propertyRef_ok {w : World} {self : Name} {own : List (Name × Ref)} {ns : Name × PSlot} {nr : Name × Ref}
+    (h : propertyRef w self own ns = some nr) :
+    nr ∈ own ∨ ∃ c, nr.2 ∈ w.roots (.cls c) := by
+  unfold propertyRef at h
+  split at h
+  · cases hg : aget? own ns.1 with
+    | none => simp [hg] at h
+    | some r =>
+      simp only [hg, Option.map_some, Option.some.injEq] at h
+      subst h
+      exact Or.inl (aget?_mem hg)
+  · cases hc : w.findClass ns.2.owner with
+    | none => simp [hc] at h
+    | some cr =>
+      cases hg : aget? cr.propRef ns.1 with
+      | none => simp [hc, hg] at h
+      | some r =>
+        simp only [hc, Option.bind_some, hg, Option.map_some, Option.some.injEq] at h
+        subst h
+        exact Or.inr ⟨_, propRef_root hc hg⟩
+
+/-- pass 0 creates Property objects only: each is new and reaches nothing but itself -/
+def PropInv (base : Nat) (st : Heap × List (Name × Ref)) : Prop :=
+  base ≤ st.1.length ∧ ∀ nr ∈ st.2, (base ≤ nr.2 ∧ nr.2 < st.1.length) ∧ ∃ p, st.1[nr.2]? = some (Obj.prop p)
+
+theorem propInv_allocProp (base : Nat) (st : Heap × List (Name × Ref)) (ke : Name × EntryV)
+    (hi : PropInv base st) : PropInv base (allocProp st ke) := by
+  unfold allocProp
+  split
+  · rename_i p _
+    refine ⟨by simp; have := hi.1; omega, ?_⟩
+    intro nr hnr
+    simp only [List.mem_append, List.mem_singleton] at hnr
+    rcases hnr with hold | rfl
+    · obtain ⟨h0, q, hq⟩ := hi.2 nr hold
+      refine ⟨⟨h0.1, Nat.lt_of_lt_of_le h0.2 (by simp)⟩, q, ?_⟩
+      simp only
+      rw [List.getElem?_append_left h0.2]; exact hq
+    · refine ⟨⟨hi.1, by simp⟩, p, ?_⟩
+      simp
+  · exact hi
+
+theorem propInv_foldl (base : Nat) (l : List (Name × EntryV)) (st : Heap × List (Name × Ref))
+    (hi : PropInv base st) : PropInv base (l.foldl allocProp st) := by
+  induction l generalizing st with
+  | nil => exact hi
+  | cons a l ih => exact ih _ (propInv_allocProp base st a hi)
+
+theorem reachAcc_prop {h : Heap} {r : Ref} {p : PropV} (hp : h[r]? = some (Obj.prop p)) : reachAcc h r = [r] := by
+  unfold reachAcc Heap.accAt; rw [hp]
 
 theorem resolve_ok {w : World} {self : Name} {sd : List (Name × Ref)} {base L : Nat}
     (hsd : ∀ nr ∈ sd, base ≤ nr.2 ∧ nr.2 < L) {id : DtId} {x : Ref} (h : resolveDt w self sd id = some x) :
@@ -908,8 +977,12 @@ theorem preserve_define (T : Tables) (w : World) (d : ClassDecl) (hadm : w.findC
   have hfind : (layout w cv).findClass d.name = some (layoutRec w cv) := by
     have := findClass_layout_new w cv (by rw [hname]; exact hadm)
     rwa [hname] at this
+  have s0inv : PropInv w.heap.length (layoutProp w cv) :=
+    propInv_foldl _ cv.dict (w.heap, []) ⟨Nat.le_refl _, by simp⟩
+  have he01 : Extends (layoutProp w cv).1 (layoutDecl w cv).1 :=
+    extends_foldl _ (extends_allocDecl _) cv.dict ((layoutProp w cv).1, [])
   have s1inv : FreshOrInv w.heap.length (ClassReach w) (layoutDecl w cv) :=
-    freshOrInv_foldl _ _ _ (freshOrInv_allocDecl _ _ _) cv.dict (w.heap, []) ⟨Nat.le_refl _, by simp⟩
+    freshOrInv_foldl _ _ _ (freshOrInv_allocDecl _ _ _) cv.dict ((layoutProp w cv).1, []) ⟨s0inv.1, by simp⟩
   have hsd : ∀ nr ∈ (layoutDecl w cv).2, w.heap.length ≤ nr.2 ∧ nr.2 < (layoutDecl w cv).1.length :=
     fun nr h => (s1inv.2 nr h).1
   have s2inv : FreshOrInv w.heap.length (ClassReach w) (layoutAcc w cv (layoutDecl w cv)) :=
@@ -929,7 +1002,30 @@ theorem preserve_define (T : Tables) (w : World) (d : ClassDecl) (hadm : w.findC
   obtain ⟨root, hroot, hx⟩ := List.mem_flatMap.1 hr
   have hgoal : (w.heap.length ≤ r ∧ r < (layout w cv).heap.length) ∨ ClassReach w r := by
     simp only [List.mem_append, List.mem_map] at hroot
-    rcases hroot with (⟨nr, hnr, rfl⟩ | ⟨nr, hnr, rfl⟩) | ⟨nr, hnr, rfl⟩
+    have own0 : ∀ nr ∈ (layoutProp w cv).2, ∀ x ∈ reachAcc (layout w cv).heap nr.2,
+        (w.heap.length ≤ x ∧ x < (layout w cv).heap.length) ∨ ClassReach w x := by
+      intro nr hnr x hx
+      obtain ⟨h0, p, hp⟩ := s0inv.2 nr hnr
+      have hcell : (layout w cv).heap[nr.2]? = some (Obj.prop p) := by
+        rw [hheap, (he01.trans he12).get h0.2]; exact hp
+      rw [reachAcc_prop hcell] at hx
+      simp only [List.mem_singleton] at hx
+      subst hx
+      left
+      rw [hheap]
+      exact ⟨h0.1, Nat.lt_of_lt_of_le h0.2 (he01.trans he12).len⟩
+    rcases hroot with (((⟨nr, hnr, rfl⟩ | ⟨nr, hnr, rfl⟩) | ⟨nr, hnr, rfl⟩) | ⟨nr, hnr, rfl⟩) | ⟨nr, hnr, rfl⟩
+    rotate_left 3
+    · -- a Property object of the class' `__dict__`
+      exact own0 nr hnr r hx
+    · -- an entry of `propertyDict`: own, or lying in the `__dict__` of an existing class
+      simp only [layoutRec] at hnr
+      obtain ⟨ns, _, hns⟩ := List.mem_filterMap.1 hnr
+      rcases propertyRef_ok hns with h | ⟨c, hc⟩
+      · exact own0 nr h r hx
+      · right
+        rw [reachAcc_congr ((extends_layout w cv).get (root_lt hb hc))] at hx
+        exact ⟨c, root_reach hc hx⟩
     · -- an accessible
       have hcases : nr ∈ (layoutAcc w cv (layoutDecl w cv)).2 ∨ ∃ c, nr.2 ∈ w.roots (.cls c) := by
         simp only [layoutRec, layoutAccessibles] at hnr
